@@ -279,7 +279,7 @@ async def _worker(ctx, tree, scens, out, wid, squid_kw):
     store = squid_kw.pop('store', 'mem')
     tag = squid_kw.pop('tag', '')
     if store != 'mem':
-        squid_kw['cache_mem'] = '256 KB'
+        squid_kw['cache_mem'] = '0 MB'          # every hit comes from the cache_dir
     sq = squidctl.Squid(ctx, tree, name='w%s%d' % (tag, wid), **squid_kw)
     if store != 'mem':
         # hits must come from the cache_dir: objects do not fit the memory cache
@@ -315,6 +315,26 @@ def run_scenarios(ctx, tree, scens, nworkers=6, **squid_kw):
         await asyncio.gather(*[_worker(ctx, tree, parts[i], out, i, squid_kw) for i in range(nworkers) if parts[i]])
         return out
     return asyncio.run(main())
+
+
+def run_scenarios_stores(ctx, tree, scens, nworkers=6, disk_sample=40, **squid_kw):
+    """All scenarios on the memory cache, plus a seeded sample of them (thorough: up to 10 x disk_sample) on a rock and a ufs
+    cache_dir with the memory cache switched off.  Each scenario dict gets a 'store' entry.  Returns [(scenario, events)]."""
+    import copy
+    import random
+    out = []
+    for s in scens:
+        s['store'] = 'mem'
+    out += run_scenarios(ctx, tree, scens, nworkers, **squid_kw)
+    rnd = random.Random(ctx.seed * 31 + 7)
+    n = min(len(scens), disk_sample * (10 if ctx.thorough else 1))
+    for store in ('rock', 'ufs'):
+        pick = [copy.deepcopy(s) for s in rnd.sample(scens, n)]
+        for s in pick:
+            s['store'] = store
+        out += run_scenarios(ctx, tree, pick, min(nworkers, 4), store=store, tag=store, **squid_kw)
+    ctx.cov['scenarios_by_store'] = {st: sum(1 for s, _ in out if s.get('store') == st) for st in ('mem', 'rock', 'ufs')}
+    return out
 
 
 def contacted(ev, rid):
